@@ -137,6 +137,12 @@ class BuiltinMixin:
         seq = self.elems(st, src)
         x = fresh_val("x")
         st.assume(qforall([x], z3.Contains(res, z3.Unit(x)) == z3.Contains(seq, z3.Unit(x))))
+        # consequences stated explicitly: every source element is a member; every member is a source element
+        j = fresh_int("j")
+        idx = z3.Function(fresh_name("sidx"), Int, Int)
+        st.assume(qforall([j], z3.Implies(z3.And(0 <= j, j < z3.Length(seq)), z3.Contains(res, z3.Unit(seq[j]))), patterns=[seq[j]]))
+        st.assume(qforall([j], z3.Implies(z3.And(0 <= j, j < z3.Length(res)),
+                                           z3.And(0 <= idx(j), idx(j) < z3.Length(seq), res[j] == seq[idx(j)])), patterns=[res[j]]))
         return R(st, self.new_list(st, res, "set" + (f"[{elem_type(src.ty)}]" if elem_type(src.ty) else "")))
 
     def bi_dict(self, st, a, kw, n):
